@@ -1,9 +1,9 @@
 """C01 - backtest decisions never depend on future candles (2-run hyperproperty)."""
 
 RULE = ("Hypothesis-generated session pairs: a full session S (lattice candles with gaps/flats for 1-2 symbols, a ScriptedStrategy "
-        "program per route, spot/futures, trading timeframe 1m..15m, 0-2 data routes 3m..1h, warm-up on/off, both simulators) is "
-        "run on candles X and on X[:t] + Y[t:], where the cut minute t is drawn (fast mode: a multiple of the trading "
-        "timeframe) and Y is an independently drawn tail for every symbol. Both traces are projected on the events stamped "
+        "program per route, spot/futures, trading timeframe 1m..15m, 0-2 data routes 3m..1h, warm-up on/off, cross / isolated margin with leverage 1..100, both simulators) is "
+        "run on candles X and on X[:t] + Y[t:], where the cut minute t is drawn, or placed 0-4 minutes after a drawn fill of the "
+        "first run (fast mode: a multiple of the trading timeframe) and Y is an independently drawn tail for every symbol. Both traces are projected on the events stamped "
         "with simulated time <= T0 + t minutes (hook invocations with the candle arrays of every readable (symbol, timeframe), "
         "price, position, balance, margin; order submissions, cancellations, fills with all fields) and must be equal as "
         "sequences, floats compared exactly. distinct = digest of (X[:t], scripts, config); non-trivial = the common prefix "
@@ -17,6 +17,7 @@ ASSUMPTIONS = [
 TECHNIQUE = "metamorphic 2-run (non-interference) testing over generated sessions, cut points and replacement tails"
 MIN_NONTRIVIAL = {'quick': 60, 'thorough': 3000}
 MIN = 60_000
+TF_MIN = {'1m': 1, '3m': 3, '5m': 5, '15m': 15, '30m': 30, '45m': 45, '1h': 60}
 
 
 def project(trace, t_ms):
@@ -28,6 +29,8 @@ def project(trace, t_ms):
             continue
         if e['ev'] in ('minute', 'chunk'):
             continue  # input echo: the candles handed to the matcher are the inputs themselves (compared through hooks)
+        if e['ev'] == 'liq-check':
+            continue  # an internal call, not an observable: a liquidation shows through its order, fill and the account values
         d = {k: v for k, v in e.items() if k not in ('snap',)}
         out.append(d)
     return out
@@ -51,21 +54,48 @@ def run_pair(case):
     from vf.drive.bench import T0
     spec = case['spec']
     cut = case['cut']
+    r1 = session.run(spec, obs='candles')
+    directed = False
+    if case.get('cut_after') and not r1['error']:
+        # directed cut: the cut is placed a few minutes after the j-th fill of run A (look-ahead matters around fills and liquidations)
+        j, delta = case['cut_after'][:2]
+        fills = [e for e in r1['trace'] if e['ev'] == 'executed' and e.get('after') == 'EXECUTED']
+        if len(case['cut_after']) > 2 and case['cut_after'][2]:
+            # prefer the fills of liquidation orders when there are any
+            liq_ords = {e['ord'] for e in r1['trace'] if e['ev'] == 'submit' and e.get('phase') == 'liquidation'}
+            fills = [e for e in fills if e['ord'] in liq_ords] or fills
+        n = spec['n']
+        if fills:
+            e = fills[j % len(fills)]
+            i = int((e['t'] - T0) // MIN) - 1  # the minute during which it filled
+            c2 = i + 1 + delta
+            if spec.get('fast'):
+                tf = max(TF_MIN[r['timeframe']] for r in spec['routes'])
+                c2 = -(-c2 // tf) * tf
+            if 2 <= c2 <= n - 2:
+                cut, directed = c2, True
     spec2 = copy.deepcopy(spec)
     for s, rows in spec2['candles'].items():
         tail = case['tails'][s]
         n = len(rows)
         new = [list(r) for r in rows[:cut]]
+        shift = 0.0
+        if directed and (case.get('styles') or {}).get(s) == 'continue':
+            shift = rows[cut - 1][2] - tail[0][1]  # keep the tail continuing from the close at the cut
+            if min(r[4] for r in tail) + shift <= 0:
+                shift = 0.0
         for i in range(cut, n):
             r = list(tail[(i - cut) % len(tail)])
             r[0] = rows[i][0]
+            if shift:
+                r[1], r[2], r[3], r[4] = r[1] + shift, r[2] + shift, r[3] + shift, r[4] + shift
             new.append(r)
         spec2['candles'][s] = new
-    r1 = session.run(spec, obs='candles')
     r2 = session.run(spec2, obs='candles')
     t_ms = T0 + cut * MIN
     p1, p2 = project(r1['trace'], t_ms), project(r2['trace'], t_ms)
-    info = dict(prefix_events=len(p1), fills=sum(1 for e in p1 if e['ev'] == 'executed' and e.get('after') == 'EXECUTED'),
+    liq = sum(1 for e in p1 if e.get('phase') == 'liquidation' and e['ev'] == 'submit')
+    info = dict(cut=cut, directed=directed, liquidations=liq, prefix_events=len(p1), fills=sum(1 for e in p1 if e['ev'] == 'executed' and e.get('after') == 'EXECUTED'),
                 differs_after=(r1['trace'] != r2['trace']), err1=r1['error'] and r1['error']['type'], err2=r2['error'] and r2['error']['type'])
     vios = []
     if 'Watchdog' in (info['err1'], info['err2']):
@@ -113,9 +143,16 @@ def run_shard(acc, shard, nshards, seed, tier):
     from vf.gen import sessions, candles as gc
     known = runner.known_signatures('C01')
 
+    general = sessions.session(minutes=(60, 150) if tier == 'quick' else (60, 400), align_len=True, program=dict(busy=True), data_only_symbol=True,
+                               modes=('cross', 'isolated'), leverages=(1, 2, 5, 10, 25, 50, 100))
+    # held, highly leveraged isolated positions with far resting exits: liquidations inside the prefix
+    levered = sessions.session(minutes=(60, 150) if tier == 'quick' else (60, 400), kinds=('futures',), modes=('isolated',), leverages=(20, 50, 100, 125),
+                               tfs=('3m', '5m', '15m', '1m'), max_data=1, warmup=(False,), align_len=True, structural=False,
+                               program=dict(busy=True, hold=True, cycle=True))
+
     @st.composite
-    def cases(draw):
-        spec = draw(sessions.session(minutes=(60, 150) if tier == 'quick' else (60, 400), align_len=True, program=dict(busy=True), data_only_symbol=True))
+    def cases(draw, base=general):
+        spec = draw(base)
         n = spec['n']
         tf = max(sessions.TF_MIN[r['timeframe']] for r in spec['routes'])
         if spec['fast']:
@@ -123,7 +160,8 @@ def run_shard(acc, shard, nshards, seed, tier):
             cut = k * tf
         else:
             cut = draw(st.integers(2, n - 2))
-        tails = {}
+        tails, styles = {}, {}
+        cut_after = draw(st.sampled_from([None, None, (0, 0), (1, 1), (2, 0), (3, 2), (5, 1), (1, 4), (0, 2), (7, 0), (0, 0, True), (1, 1, True), (0, 2, True), (2, 0, True)]))
         for s in spec['candles']:
             tick = spec['ticks'][s]
             style = draw(st.sampled_from(['continue', 'jump']))
@@ -131,7 +169,8 @@ def run_shard(acc, shard, nshards, seed, tier):
             start = round(last_close / tick) + (0 if style == 'continue' else draw(st.sampled_from([-40, -7, 9, 60])))
             c = draw(gc.structural(min(n - cut, 40), tick=tick, start=max(25, start)))
             tails[s] = c['rows']
-        return dict(spec=spec, cut=cut, tails=tails)
+            styles[s] = style
+        return dict(spec=spec, cut=cut, tails=tails, styles=styles, cut_after=cut_after)
 
     def chk(case):
         vios, info = run_pair(case)
@@ -142,8 +181,15 @@ def run_shard(acc, shard, nshards, seed, tier):
               'warmup' if spec['warmup'] else 'no-warmup', 'tf:' + spec['routes'][0]['timeframe']]
         if info['err1']:
             cl.append('aborted:' + info['err1'])
-        key = (spec['cfg'], spec['routes'], spec['data'], spec['scripts'], {s: v[:case['cut']] for s, v in spec['candles'].items()}, spec['fast'])
+        if info.get('liquidations'):
+            cl.append('liquidation-in-prefix')
+        if spec['cfg']['type'] == 'futures':
+            cl.append('margin:' + spec['cfg']['mode'])
+        cl.append('cut:directed-after-a-fill' if info.get('directed') else 'cut:drawn')
+        key = (spec['cfg'], spec['routes'], spec['data'], spec['scripts'], {s: v[:info['cut']] for s, v in spec['candles'].items()}, spec['fast'])
         return dict(key=key, nontrivial=nt, classes=cl, violations=vios,
-                    sample=dict(cfg=spec['cfg'], routes=spec['routes'], data=spec['data'], fast=spec['fast'], minutes=spec['n'], cut=case['cut'],
+                    sample=dict(cfg=spec['cfg'], routes=spec['routes'], data=spec['data'], fast=spec['fast'], minutes=spec['n'], cut=info['cut'],
                                 prefix_events=info['prefix_events'], fills_in_prefix=info['fills']) if nt else None)
     runner.hyp_search(acc, cases(), chk, 10 if tier == 'quick' else 1200, seed, tier, known=known, shrink_calls=12, max_shrink_sigs=1)
+    runner.hyp_search(acc, cases(base=levered), lambda c: dict(chk(c), sub='levered-isolated-sessions'), 20 if tier == 'quick' else 600, seed + 3, tier,
+                      known=known, shrink_calls=12, max_shrink_sigs=1)
